@@ -10,6 +10,11 @@ def run(ctx):
     with open(scen, "a") as out:
         for line in open(scen2):
             out.write(line)
+    # hand-picked histories: a Generator that outlives an edit and re-analysis of its model
+    scen3 = ctx.gen("Services", "Services.tla", "Gen_C12_generator.cfg", "svcgen", workers=1, timeout=600)
+    with open(scen, "a") as out:
+        for line in open(scen3):
+            out.write(line)
     ctx.sample(scen, 3)
     trace = ctx.execute("services", scen, wall=3000 if ctx.quick else 12000)      # one fresh process per call sequence
     # (1) per shard: inputs unchanged, results functional within the shard
